@@ -1,8 +1,215 @@
 import QclibModel.Model.Entangle
 import QclibModel.Gen.Entangle
-namespace Qclib
+import QclibModel.Spec.Entangle
+import QclibModel.Proofs.EntangleBits
+import QclibModel.Proofs.EntangleAlg
+import QclibModel.Proofs.EntangleModel
+import QclibModel.Proofs.EntangleMw
+import QclibModel.Proofs.EntangleGeo
+import QclibModel.Proofs.EntangleLU
+import QclibModel.Proofs.EntangleProd
+/-
+  C20 — entanglement measures agree with their definitions and vanish on product states.
+  Property theorems only; proofs live in Proofs/Entangle*.lean.
 
-/-- The Lean text translated from the current source of `_get_iota` is the hand model. -/
+  Objects (Spec/Entangle.lean): `delBit j b` / `insBit j c r` delete / insert bit `j` of a label;
+  `slice ψ j c` is the ι-slice `r ↦ ψ(insBit j c r)`; `nrm2`, `inner`, `crossSum` are explicit
+  finite sums; `purity n ψ k = ‖u‖⁴+‖v‖⁴+2|⟨u,v⟩|²` is `Tr ρ_k²`; `mwValue` is the code's formula.
+  `mwCode vec` / `geoCode results` are the executable model (Model/Entangle.lean) instantiated at ℂ.
+-/
+namespace Qclib
+open Ent Finset
+
+/-- **C20 (source tie).**  The Lean text translated on every run from the current source of
+`_get_iota` is, definitionally, the hand model `getIota` the other theorems speak about. -/
 theorem C20_iota_src (j n s b : Nat) : Gen.get_iota j n s b = Ent.getIota j n s b := rfl
+
+/-- **C20 (index split is a bijection).**  For all `n`, `j < n`: on labels `b < 2^n` the model of
+`_get_iota(j, n, s, b)` returns (`bit j of b == s`, `delBit j b`); `delBit j b < 2^(n-1)`; the
+explicit inverse `insBit j` maps `Bool × [0,2^(n-1))` into `[0,2^n)`, and the two maps are mutually
+inverse — i.e. `b ↦ (bit j of b, b with bit j removed)` is a bijection
+`{0..2^n−1} ≃ Bool × {0..2^(n−1)−1}`. -/
+theorem C20_iota (n j : Nat) (hj : j < n) :
+    (∀ b, b < 2 ^ n → ∀ s : Bool,
+        getIota j n (if s then 1 else 0) b = some (b.testBit j == s, delBit j b))
+    ∧ (∀ b, b < 2 ^ n → delBit j b < 2 ^ (n - 1))
+    ∧ (∀ c r, r < 2 ^ (n - 1) → insBit j c r < 2 ^ n)
+    ∧ (∀ b, insBit j (b.testBit j) (delBit j b) = b)
+    ∧ (∀ c r, (insBit j c r).testBit j = c ∧ delBit j (insBit j c r) = r) :=
+  ⟨fun _ hb s => getIota_eq hj hb s, fun _ hb => delBit_lt hj hb, fun c _ hr => insBit_lt c hj hr,
+   fun b => insBit_delBit j b, fun c r => ⟨testBit_insBit_self j c r, delBit_insBit j c r⟩⟩
+
+example : getIota 1 3 1 6 = some (true, 2) ∧ delBit 1 6 = 2 ∧ insBit 1 true 2 = 6 := by decide
+
+/-- **C20 (the split is the tensor split on qubit `j`).**  Bit `i` of the squeezed label is bit `i`
+of `b` below `j` and bit `i+1` from `j` on; conversely for the inverse. -/
+theorem C20_iota_bits (j b i : Nat) (c : Bool) :
+    (delBit j b).testBit i = b.testBit (if i < j then i else i + 1)
+    ∧ (insBit j c b).testBit i = if i < j then b.testBit i else if i = j then c else b.testBit (i - 1) :=
+  ⟨testBit_delBit j b i, testBit_insBit j c b i⟩
+
+/-- **C20 (Lagrange identity).**  For complex vectors of any length `m`:
+`Σ_{i<j<m} |u_i v_j − u_j v_i|² = ‖u‖²‖v‖² − |⟨u,v⟩|²`. -/
+theorem C20_lagrange (m : Nat) (u v : Nat → ℂ) :
+    crossSum m u v = nrm2 m u * nrm2 m v - Complex.normSq (inner m u v) :=
+  lagrange m u v
+
+example : crossSum 2 (fun i => if i = 0 then 1 else Complex.I) (fun i => if i = 0 then 2 else 0) = 4 := by
+  simp [crossSum, Finset.sum_range_succ, Complex.normSq_apply]; norm_num
+
+/-- **C20 (Meyer–Wallach, closed form).**  For every `n ≥ 1` and every array of `2^n` amplitudes
+with `Σ|ψ_b|² = 1` the model of `meyer_wallach_entanglement` returns
+`2·(1 − (1/n)·Σ_k Tr ρ_k²)` (and for any array of that size, normalised or not, it returns the
+formula `(Σ_k D(ι_k^0 ψ, ι_k^1 ψ))·(4/n)`). -/
+theorem C20_mw (n : Nat) (hn : 0 < n) (vec : Array ℂ) (hsz : vec.size = 2 ^ n) :
+    mwCode vec = some (mwValue n (ampOf vec))
+    ∧ (nrm2 (2 ^ n) (ampOf vec) = 1 →
+        mwCode vec = some (2 * (1 - (1 / (n : ℝ)) * ∑ k ∈ range n, purity n (ampOf vec) k))) := by
+  refine ⟨mwCode_eq hn vec hsz, fun h1 => ?_⟩
+  rw [mwCode_eq hn vec hsz, mwValue_eq_purity hn _ h1]
+
+/-- a non-trivial instance of the hypotheses: the unit vector (3/5,0,0,4/5) on two qubits -/
+example : (#[(3/5 : ℂ), 0, 0, 4/5] : Array ℂ).size = 2 ^ 2
+    ∧ nrm2 (2 ^ 2) (ampOf #[(3/5 : ℂ), 0, 0, 4/5]) = 1 := by
+  refine ⟨rfl, ?_⟩
+  simp [nrm2, ampOf, Finset.sum_range_succ, Complex.normSq_apply]; norm_num
+
+/-- **C20 (range).**  On unit vectors the value lies in `[0,1]`. -/
+theorem C20_mw_range (n : Nat) (hn : 0 < n) (vec : Array ℂ) (hsz : vec.size = 2 ^ n)
+    (h1 : nrm2 (2 ^ n) (ampOf vec) = 1) :
+    ∃ x : ℝ, mwCode vec = some x ∧ 0 ≤ x ∧ x ≤ 1 :=
+  ⟨_, mwCode_eq hn vec hsz, mwValue_nonneg _ _, mwValue_le_one hn _ h1⟩
+
+/-- **C20 (zero iff all one-qubit marginals pure).**  On unit vectors the value is `0` iff
+`Tr ρ_k² = 1` for every qubit `k`. -/
+theorem C20_mw_zero_iff_pure (n : Nat) (hn : 0 < n) (vec : Array ℂ) (hsz : vec.size = 2 ^ n)
+    (h1 : nrm2 (2 ^ n) (ampOf vec) = 1) :
+    mwCode vec = some 0 ↔ ∀ k, k < n → purity n (ampOf vec) k = 1 := by
+  rw [mwCode_eq hn vec hsz, Option.some.injEq, mwValue_eq_zero_iff hn]
+  constructor
+  · intro h k hk; rw [purity_eq hk _ h1, h k hk]; ring
+  · intro h k hk; have := h k hk; rw [purity_eq hk _ h1] at this; linarith
+
+/-- **C20 (pure marginal iff proportional slices).**  For a unit vector, `Tr ρ_k² = 1` iff the two
+ι-slices on qubit `k` are proportional (the 2 × 2^(n−1) matrix has rank ≤ 1), i.e. qubit `k`
+factors out. -/
+theorem C20_pure_iff_proportional (n k : Nat) (hk : k < n) (ψ : Nat → ℂ) (h1 : nrm2 (2 ^ n) ψ = 1) :
+    purity n ψ k = 1 ↔ Proportional (2 ^ (n - 1)) (slice ψ k false) (slice ψ k true) := by
+  rw [← crossSum_eq_zero_iff_proportional, purity_eq hk ψ h1]
+  constructor <;> intro h <;> linarith
+
+/-- **C20 (zero on product states).**  For every `n ≥ 1` and all one-qubit vectors `f k`
+(normalised or not, zero amplitudes allowed) the value on `⊗_k f_k` is `0`. -/
+theorem C20_mw_product_zero (n : Nat) (hn : 0 < n) (f : Nat → Bool → ℂ) (vec : Array ℂ)
+    (hsz : vec.size = 2 ^ n) (hvec : ∀ b, b < 2 ^ n → vec.getD b 0 = prodState n f b) :
+    mwCode vec = some 0 := by
+  rw [mwCode_eq hn vec hsz, Option.some.injEq, mwValue_eq_zero_iff hn]
+  intro k hk
+  rw [← crossSum_prodState hk f]
+  apply crossSum_congr
+  · intro i hi; exact hvec _ (insBit_lt false hk hi)
+  · intro i hi; exact hvec _ (insBit_lt true hk hi)
+
+/-- a product vector with complex entries satisfying the hypothesis -/
+example : ∃ (f : Nat → Bool → ℂ) (vec : Array ℂ), vec.size = 2 ^ 2
+    ∧ ∀ b, b < 2 ^ 2 → vec.getD b 0 = prodState 2 f b := by
+  refine ⟨fun _ c => if c then Complex.I else 2, #[4, 2 * Complex.I, 2 * Complex.I, -1], rfl, ?_⟩
+  intro b hb
+  have : b = 0 ∨ b = 1 ∨ b = 2 ∨ b = 3 := by omega
+  rcases this with rfl | rfl | rfl | rfl <;>
+    (simp [prodState, Finset.prod_range_succ, Nat.testBit, mul_comm]; try norm_num)
+
+/-- **C20 (zero exactly on product states).**  For every `n ≥ 1` and every array of `2^n` amplitudes
+(normalised or not) the model's value is `0` iff the vector is a tensor product of one-qubit
+vectors `ψ_b = ∏_k f_k(bit k of b)`. -/
+theorem C20_mw_zero_iff_product (n : Nat) (hn : 0 < n) (vec : Array ℂ) (hsz : vec.size = 2 ^ n) :
+    mwCode vec = some 0 ↔ ∃ f : Nat → Bool → ℂ, ∀ b, b < 2 ^ n → vec.getD b 0 = prodState n f b := by
+  constructor
+  · intro h
+    rw [mwCode_eq hn vec hsz, Option.some.injEq, mwValue_eq_zero_iff hn] at h
+    exact product_of_zero hn (ampOf vec) h
+  · rintro ⟨f, hf⟩
+    exact C20_mw_product_zero n hn f vec hsz hf
+
+/-- **C20 (invariance under a one-qubit unitary).**  If `vec'` is `vec` with a 2×2 matrix `U`,
+`U†U = 1`, applied to qubit `q < n`, the model returns the same value for both (no normalisation
+needed).  Proof: on the acted qubit the cross sum is multiplied by `|det U|² = 1`; on every other
+qubit both slices are transformed by the same unitary, which preserves `‖u‖, ‖v‖, ⟨u,v⟩`. -/
+theorem C20_mw_local_unitary (n : Nat) (hn : 0 < n) (U : Bool → Bool → ℂ) (hU : IsUnitary2 U)
+    (q : Nat) (hq : q < n) (vec vec' : Array ℂ) (hsz : vec.size = 2 ^ n) (hsz' : vec'.size = 2 ^ n)
+    (h : ∀ b, b < 2 ^ n → vec'.getD b 0 = apply1 U q (ampOf vec) b) :
+    mwCode vec' = mwCode vec := by
+  have e : mwValue n (ampOf vec') = mwValue n (apply1 U q (ampOf vec)) := mwValue_congr h
+  rw [mwCode_eq hn vec hsz, mwCode_eq hn vec' hsz', e, mwValue_apply1 hU hq]
+
+example : IsUnitary2 (fun r c => if r then (if c then -(3/5 : ℂ) else 4/5) else (if c then 4/5 else 3/5)) := by
+  refine ⟨?_, ?_, ?_⟩ <;> simp [Complex.normSq_apply, map_ofNat] <;> norm_num
+
+/- **C20 (invariance under qubit relabelling) — full statement, NOT proved in this form:**
+   for every permutation `σ` of `{0..n-1}`, if `vec'[b] = vec[b']` where bit `i` of `b'` is bit `σ i`
+   of `b` … then `mwCode vec' = mwCode vec`.
+   What is proved (`_partial`): the statement for any relabelling presented slice-wise — qubit `k`
+   of `vec'` is qubit `τ k` of `vec` and the remaining `n-1`-bit label is reindexed by some
+   bijection `π k`.  Missing: the construction of `π k` from a bit permutation `σ` of the labels
+   (pure index bookkeeping; the oracle checks random permutations for n = 2..8). -/
+/-- **C20 (relabelling, partial).**  If for every qubit `k` the two slices of `vec'` on `k` are the
+slices of `vec` on `τ k` with their index reindexed by a bijection `π k` of `[0,2^(n-1))`, and `τ`
+permutes `[0,n)`, then the model returns the same value. -/
+theorem C20_mw_relabel_partial (n : Nat) (hn : 0 < n) (vec vec' : Array ℂ) (hsz : vec.size = 2 ^ n)
+    (hsz' : vec'.size = 2 ^ n) (τ : Equiv.Perm Nat) (hτ : ∀ k, τ k < n ↔ k < n)
+    (π : Nat → Equiv.Perm Nat) (hπ : ∀ k r, π k r < 2 ^ (n - 1) ↔ r < 2 ^ (n - 1))
+    (h : ∀ k, k < n → ∀ c r, r < 2 ^ (n - 1) →
+      vec'.getD (insBit k c r) 0 = vec.getD (insBit (τ k) c (π k r)) 0) :
+    mwCode vec' = mwCode vec := by
+  rw [mwCode_eq hn vec hsz, mwCode_eq hn vec' hsz']
+  exact congrArg some (mwValue_relabel n (ampOf vec) (ampOf vec') τ hτ π hπ h)
+
+/-- swapping the two qubits of a 2-qubit register satisfies the hypothesis of the partial theorem -/
+example (vec vec' : Array ℂ) (hv : ∀ a b : Bool,
+      vec'.getD ((if a then 1 else 0) + 2 * (if b then 1 else 0)) 0
+        = vec.getD ((if b then 1 else 0) + 2 * (if a then 1 else 0)) 0) :
+    ∀ k, k < 2 → ∀ c r, r < 2 ^ (2 - 1) →
+      vec'.getD (insBit k c r) 0 = vec.getD (insBit (Equiv.swap 0 1 k) c ((fun _ => Equiv.refl Nat) k r)) 0 := by
+  intro k hk c r hr
+  have hr' : r = 0 ∨ r = 1 := by omega
+  have hk' : k = 0 ∨ k = 1 := by omega
+  rcases hk' with rfl | rfl <;> rcases hr' with rfl | rfl <;> cases c
+  all_goals first
+    | simpa [insBit] using hv false false
+    | simpa [insBit] using hv true false
+    | simpa [insBit] using hv false true
+    | simpa [insBit] using hv true true
+
+/-- **C20 (geometric measure, post-processing).**  Let `results` be what the four `tucker` calls
+returned and assume the kernel's specification: every factor is a unit vector and
+`core = ⟨⊗_k f_k, ψ⟩` for the unit input `ψ`.  Then what `geometric_entanglement(ψ, True, True)`
+returns — `(l, ps, fs)` — satisfies: `l = 1 − |core|²` of a restart with minimal loss, `fs` are its
+factors, `0 ≤ l ≤ 1` (Cauchy–Schwarz), and (when `core ≠ 0`) the product state `ps` equals
+`phase · ⊗_k f_k` with `|phase| = 1`, is normalised and has fidelity `|⟨ps,ψ⟩|² = 1 − l`. -/
+theorem C20_geo_post (results : List (Tucker1 ℂ)) (ψ : List ℂ) (hψ : nrm2L ψ = 1)
+    (hK4 : ∀ t ∈ results, (∀ f ∈ t.factors, Complex.normSq f.1 + Complex.normSq f.2 = 1)
+      ∧ ψ.length = 2 ^ t.factors.length ∧ t.core = dotL (kronAll (1 : ℂ) t.factors) ψ)
+    (l : ℝ) (ps : List ℂ) (fs : List (ℂ × ℂ)) (h : geoCode results = some (l, ps, fs)) :
+    ∃ t ∈ results, fs = t.factors ∧ l = 1 - Complex.normSq t.core
+      ∧ (∀ t' ∈ results, l ≤ 1 - Complex.normSq t'.core)
+      ∧ 0 ≤ l ∧ l ≤ 1
+      ∧ (t.core ≠ 0 →
+          ps = (kronAll (1 : ℂ) fs).map ((t.core / (Real.sqrt (Complex.normSq t.core) : ℂ)) * ·)
+          ∧ Complex.normSq (t.core / (Real.sqrt (Complex.normSq t.core) : ℂ)) = 1
+          ∧ nrm2L ps = 1 ∧ Complex.normSq (dotL ps ψ) = 1 - l) :=
+  geo_post results ψ hψ hK4 l ps fs h
+
+/-- the kernel specification is satisfiable: ψ = (3/5,4/5), factor (1,0), core 3/5 -/
+example : ∃ (results : List (Tucker1 ℂ)) (ψ : List ℂ), results ≠ [] ∧ nrm2L ψ = 1 ∧
+    ∀ t ∈ results, (∀ f ∈ t.factors, Complex.normSq f.1 + Complex.normSq f.2 = 1)
+      ∧ ψ.length = 2 ^ t.factors.length ∧ t.core = dotL (kronAll (1 : ℂ) t.factors) ψ := by
+  refine ⟨[⟨3/5, [(1, 0)]⟩], [3/5, 4/5], by simp, ?_, ?_⟩
+  · simp [nrm2L]; norm_num
+  · intro t ht
+    simp only [List.mem_singleton] at ht
+    subst ht
+    refine ⟨?_, rfl, ?_⟩
+    · intro f hf; simp only [List.mem_singleton] at hf; subst hf; simp
+    · simp [kronAll, dotL]
 
 end Qclib
